@@ -239,6 +239,15 @@ def check_thin(fx, f, key, m, rep):
             inner_o = og.of_operand(tb.args[0])
             if all(x.root[0] == 'call' and x.root[2] == bi for x in inner_o):
                 continue
+        # `let v = inner.query(..)?; Ok(v)`: the same result taken apart and put together again
+        if r[0] == 'agg' and str(r[1]).endswith('result::Result') and r[2] == 'Ok' and len(r[4]) == 1 \
+                and r[4][0] and all(x.root[0] == 'call' and x.root[2] == bi for x in r[4][0]):
+            continue
+        if r[0] == 'call' and r[1].endswith('FromResidual::from_residual'):
+            tb = f.blocks[r[2]].term
+            inner_o = og.of_operand(tb.args[0])
+            if inner_o and all(x.root[0] == 'call' and x.root[2] == bi for x in inner_o):
+                continue
         good = False
     if good:
         rep.ok('R2-thin-delegation', k, 'forwards to %s' % inner)
